@@ -349,6 +349,50 @@ func main() {
 		nc.Close()
 		pub.Close()
 	}
+	// 11. queue groups: every message goes to exactly one member of a group (which one is the server's choice) and to
+	// every plain subscriber; two groups are independent
+	{
+		a, _ := nats.Connect(e.URL())
+		b, _ := nats.Connect(e.URL())
+		pub, _ := nats.Connect(e.URL())
+		var mu sync.Mutex
+		cnt := map[string]int{}
+		seen := map[string]int{}
+		h := func(name string) nats.MsgHandler {
+			return func(m *nats.Msg) {
+				mu.Lock()
+				cnt[name]++
+				seen[name[:2]+string(m.Data)]++
+				mu.Unlock()
+			}
+		}
+		_, e1 := a.QueueSubscribe("q.x", "g1", h("g1a"))
+		_, _ = b.QueueSubscribe("q.x", "g1", h("g1b"))
+		_, _ = b.QueueSubscribe("q.*", "g2", h("g2b"))
+		_, _ = a.Subscribe("q.x", h("plain"))
+		_, e2 := a.QueueSubscribe("q.x", "", h("bad"))
+		_ = a.Flush()
+		_ = b.Flush()
+		time.Sleep(wait)
+		for i := 0; i < 12; i++ {
+			_ = pub.Publish("q.x", []byte(fmt.Sprint(i)))
+		}
+		_ = pub.Flush()
+		time.Sleep(2 * wait)
+		mu.Lock()
+		once := true
+		for _, n := range seen {
+			if n != 1 {
+				once = false
+			}
+		}
+		obs["11-queue-groups"] = fmt.Sprintf("sub=%s emptyQueue=%s g1=%d g2=%d plain=%d eachOncePerGroup=%v", errClass(e1), errClass(e2),
+			cnt["g1a"]+cnt["g1b"], cnt["g2b"], cnt["plain"], once)
+		mu.Unlock()
+		a.Close()
+		b.Close()
+		pub.Close()
+	}
 	e.Stop()
 	b, _ := json.MarshalIndent(obs, "", " ")
 	fmt.Println(string(b))
